@@ -126,6 +126,10 @@ pub fn ref_opaque(s: &str) -> String {
     for c in s.chars() {
         let c = match c as u32 {
             0x00A0 | 0x1680 | 0x2000..=0x200A | 0x202F | 0x205F | 0x3000 => ' ',
+            // NFC singletons
+            0x212B => '\u{c5}',
+            0x2126 => '\u{3a9}',
+            0x212A => 'K',
             _ => c,
         };
         if let Some(p) = prev {
